@@ -193,12 +193,19 @@ int main(int argc, char** argv) {
       for (size_t i = from; i < to; ++i) for (char c : alphabet) all.push_back(all[i] + std::string(1, c));
       from = to;
     }
+    // long strings: lengths around powers of two (a fixed-size intermediate buffer would show here)
+    for (size_t len : {255u, 256u, 257u, 1023u, 1024u, 1025u, 4095u, 4096u, 4097u, 65535u, 65536u, 65537u, 1000000u}) {
+      std::string s(len, 'x'); for (size_t i = 0; i < len; i += 7) s[i] = (char)('a' + (i % 23));
+      all.push_back(s);
+    }
     for (const std::string& s : all) {
       ++g_checks;
       mxArray* a = wrap<string>(s);
-      std::string back = unwrap<string>(a);
       bool nul = s.find('\0') != std::string::npos;
-      if (back != s) fail(std::string("roundtrip-value|string|") + (nul ? "embedded-NUL" : "no-NUL"), "in " + showstr(s) + " out " + showstr(back));
+      std::string back;
+      try { back = unwrap<string>(a); }
+      catch (const std::exception& e) { fail(std::string("roundtrip-raises|string|") + (s.size() > 200 ? "long" : "short"), "length " + show(s.size()) + ": " + e.what()); mxDestroyArray(a); continue; }
+      if (back != s) fail(std::string("roundtrip-value|string|") + (nul ? "embedded-NUL" : (s.size() > 200 ? "long" : "no-NUL")), "in " + (s.size() > 200 ? "len" + show(s.size()) : showstr(s)) + " out " + (s.size() > 200 ? "len" + show(back.size()) : showstr(back)));
       mxDestroyArray(a);
     }
   }
